@@ -92,15 +92,35 @@ Definition uniquify_name (cand : string) (names : list string) : string :=
 Definition is_feature_module (m : string) : bool := String.prefix "__gin__." m.
 Definition import_key_ltb_orig (a b : simport) : bool :=
   if String.eqb (i_module a) (i_module b) then i_from a && negb (i_from b) else String.ltb (i_module a) (i_module b).
-Definition import_key_ltb (a b : simport) : bool :=
+Definition import_key_ltb_noalias (a b : simport) : bool :=
   if Bool.eqb (is_feature_module (i_module a)) (is_feature_module (i_module b)) then import_key_ltb_orig a b
   else is_feature_module (i_module a).
+(* repaired code (F37): remaining ties are broken by the alias ("s.alias or ''"), so that the result does not depend
+   on the order in which the set _IMPORTS yields its elements *)
+Definition alias_str (i : simport) : string := match i_alias i with Some a => a | None => "" end.
+Definition import_key_ltb (a b : simport) : bool :=
+  if import_key_ltb_noalias a b then true
+  else if import_key_ltb_noalias b a then false
+  else String.ltb (alias_str a) (alias_str b).
 (* repaired code: under dynamic registration the symbol gin is reserved, hence taken from the start *)
 Definition is_dynamic (imports : list simport) : bool :=
   existsb (fun i => String.eqb (i_module i) "__gin__.dynamic_registration") imports.
 Definition names0 (imports : list simport) : list string := if is_dynamic imports then ["gin"] else [].
 Definition import_manager (imports : list simport) : list simport :=
   let sorted := sort_stable (fun x => x) import_key_ltb imports in
+  let '(out, _, _) :=
+    fold_left (fun acc st =>
+                 let '(out, mods, names) := acc in
+                 if str_in (i_module st) mods then acc else
+                 let u := uniquify_name (bound_name st) names in
+                 let st' := if String.eqb u (bound_name st) then st
+                            else {| i_module := i_module st; i_from := i_from st; i_alias := Some u |} in
+                 (out ++ [st'], mods ++ [i_module st], names ++ [bound_name st']))
+              sorted ([], [], names0 imports) in
+  out.
+(* the code before the F37 repair: no tie-break on the alias *)
+Definition import_manager_noalias (imports : list simport) : list simport :=
+  let sorted := sort_stable (fun x => x) import_key_ltb_noalias imports in
   let '(out, _, _) :=
     fold_left (fun acc st =>
                  let '(out, mods, names) := acc in
